@@ -29,6 +29,7 @@ def graph_case(draw):
         nodes.append({"id": i, "async": draw(st.booleans()), "deps": deps, "msg": draw(st.integers(0, 2)) == 0, "tag": f"n{i}",
                       "fails": False, "msg_pos": draw(st.integers(0, 3)), "dflt": draw(st.booleans()),
                       "suspend": draw(st.booleans()),
+                      "ddflt": draw(st.sampled_from([None, None, 0, 1, 2])), "kwonly": draw(st.sampled_from([None, None, None, 0, 1])),
                       # the value a provider returns may be anything - also an exception *object* (returned, not raised)
                       "as_exc": draw(st.integers(0, 7)) == 0})
     actor_deps = draw(st.lists(st.integers(0, n - 1), min_size=1, max_size=3, unique=True))
@@ -39,7 +40,8 @@ def graph_case(draw):
         overrides.append({"node": tgt, "async": draw(st.booleans()),
                           "deps": draw(st.lists(st.sampled_from(cands), max_size=2, unique=True)) if cands else [],
                           "msg": draw(st.integers(0, 2)) == 0, "tag": f"n{tgt}v{len(overrides) + 1}",
-                          "msg_pos": draw(st.integers(0, 3)), "dflt": draw(st.booleans()), "suspend": draw(st.booleans())})
+                          "msg_pos": draw(st.integers(0, 3)), "dflt": draw(st.booleans()), "suspend": draw(st.booleans()),
+                          "ddflt": draw(st.sampled_from([None, None, 0, 1])), "kwonly": draw(st.sampled_from([None, None, None, 0]))})
     fail_node = draw(st.one_of(st.none(), st.none(), st.integers(0, n - 1)))
     return {"nodes": nodes, "actor_deps": actor_deps, "overrides": overrides, "fail_node": fail_node,
             "actor_msg": draw(st.booleans()), "actor_msg_pos": draw(st.integers(0, 3)), "payload": draw(st.one_of(st.none(), st.fixed_dictionaries({"x": st.integers(0, 9)}))),
@@ -48,11 +50,17 @@ def graph_case(draw):
 
 
 def provider_source(name: str, tag: str, is_async: bool, deps: list, msg: bool, fails: bool, msg_pos: int = 99,
-                    dflt: bool = False, suspend: bool = False, as_exc: bool = False) -> str:
+                    dflt: bool = False, suspend: bool = False, as_exc: bool = False, ddflt: int | None = None, kwonly: int | None = None) -> str:
     params = [f"d{j}: Annotated[str, DEP[{j}]]" for j in deps]
     if msg:
         # the message dependency may be declared anywhere among the annotated ones
         params.insert(min(msg_pos, len(params)), "m: MessageDependency")
+    if ddflt is not None:
+        # dependency parameters may carry a default value like any other parameter (what a direct call of the function would
+        # use); resolution through the worker still gives them their provider's value
+        params = [p_ + (" = None" if p_.startswith("m:") else " = 'DEFAULT-NOT-RESOLVED'") if i >= ddflt else p_ for i, p_ in enumerate(params)]
+    if kwonly is not None and params:
+        params.insert(min(kwonly, len(params) - 1), "*")  # the dependency parameters after it are keyword-only
     if dflt:
         params.append("flag: bool = False")  # a plain parameter with a default is allowed
     parts = [f"{{d{j}}}" for j in deps] + (["{m.key.id_}"] if msg else [])
@@ -85,7 +93,8 @@ def build(case: dict, rec: list, calls: list):
             cur[nd["id"]] = dict(cur[nd["alias_of"]])
             continue
         src = provider_source(f"prov{nd['id']}", nd["tag"], nd["async"], nd["deps"], nd["msg"], fail_root == nd["id"],
-                              nd.get("msg_pos", 99), nd.get("dflt", False), nd.get("suspend", False), nd.get("as_exc", False))
+                              nd.get("msg_pos", 99), nd.get("dflt", False), nd.get("suspend", False), nd.get("as_exc", False),
+                              nd.get("ddflt"), nd.get("kwonly"))
         exec(compile(src, "<provider>", "exec"), ns)  # noqa: S102
         DEP[nd["id"]] = Depends(ns[f"prov{nd['id']}"])
         cur[nd["id"]] = dict(nd, fails=fail_root == nd["id"])
@@ -99,7 +108,8 @@ def build(case: dict, rec: list, calls: list):
            f"{', ' + repr('m') + ': m.key.id_' if case['actor_msg'] else ''}}})\n    return 1\n")
     exec(compile(src, "<actor>", "exec"), ns)  # noqa: S102
     for i, ov in enumerate(case["overrides"]):
-        s = provider_source(f"ov{i}", ov["tag"], ov["async"], ov["deps"], ov["msg"], False, ov.get("msg_pos", 99), ov.get("dflt", False), ov.get("suspend", False))
+        s = provider_source(f"ov{i}", ov["tag"], ov["async"], ov["deps"], ov["msg"], False, ov.get("msg_pos", 99), ov.get("dflt", False), ov.get("suspend", False),
+                            False, ov.get("ddflt"), ov.get("kwonly"))
         exec(compile(s, "<override>", "exec"), ns)  # noqa: S102
     return ns, DEP, cur
 
